@@ -308,3 +308,56 @@ def f_status( ctx ):
     else:
         res.bad( src, rdb, 'write store', 'a write must store the request\'s data into attribute[beg:end] and nothing else' )
     return res
+
+
+@rule( 'S-EXT', props=( 'C14', 'C04', 'C01' ), floor=2 )
+def s_ext( ctx ):
+    """Logix.request pre-loads a failure status WITH an extended status word; every branch that stores a success status (0x00, or 0x06 = partial
+    data, more to come) removes that extended status unconditionally in the same block - a reply with status 0x06 that still carries the
+    pre-loaded extended word is two octets longer than the layout an independent client decodes"""
+    res = Result( 'S-EXT' )
+    src = ctx.src( LOGIX )
+    fn = src.get( 'Logix.request' )
+    pre = [ s for s in ast.walk( fn ) if isinstance( s, ast.Assign ) and any( dotted( t ) == 'data.status_ext' for t in s.targets ) ]
+    if not pre:
+        raise AnalysisError( 'Logix.request: pre-loaded extended status not found' )
+    succ = []
+    for s in ast.walk( fn ):
+        if isinstance( s, ast.Assign ) and any( dotted( t ) == 'data.status' for t in s.targets ) and s.lineno > pre[-1].lineno:
+            vals = set()
+            for c in ast.walk( s.value ):
+                if isinstance( c, ast.Constant ) and isinstance( c.value, int ) and not isinstance( c.value, bool ):
+                    vals.add( c.value )
+            if vals and vals <= { 0x00, 0x06 }:
+                succ.append( s )
+    if len( succ ) < 2:
+        raise AnalysisError( 'Logix.request: success status stores not found (%d)' % len( succ ))
+    def removes( st ):
+        return ( isinstance( st, ast.Expr ) and pmatch( st.value, "data.pop( 'status_ext' )" ) is not None ) or pmatch( st, "data.pop( 'status_ext', _d )" ) is not None \
+            or ( isinstance( st, ast.Delete ) and any( 'status_ext' in txt( t ) for t in st.targets ))
+    from .rules_history import _k3, U
+    cfg = CFG( fn, may_raise=lambda n_: False )
+    tr = [ t for t in fn.body if isinstance( t, ast.Try ) ]
+    removal_nodes = [ nd for nd in cfg.nodes if nd.kind == 'stmt' and removes( nd.stmt ) ]
+    # the end of the request handling: the first statement after the outer try (the reply is produced there)
+    after_try = [ nd for nd in cfg.nodes if nd.stmt is not None and tr and nd.stmt in fn.body and fn.body.index( nd.stmt ) > fn.body.index( tr[0] ) ]
+    for s in succ:
+        vals = sorted( { c.value for c in ast.walk( s.value ) if isinstance( c, ast.Constant ) and isinstance( c.value, int ) and not isinstance( c.value, bool ) } )
+        sn = cfg.node_of( s )
+        kept = []
+        for v in vals:
+            def edge_ok( a_, b_, label, v=v ):
+                if a_.kind == 'test' and a_.expr is not None and label in ( 'true', 'false' ):
+                    r_ = _k3( a_.expr, { 'data.status': v } )
+                    if r_ is not U and bool( r_ ) != ( label == 'true' ):
+                        return False
+                return True
+            reach = cfg.reachable( sn, avoid=set( removal_nodes ), edge_ok=edge_ok )
+            if any( e in reach for e in after_try ) or cfg.exit in reach:
+                kept.append( v )
+        if not kept:
+            res.ok( src, s, 'after the success status %s the pre-loaded extended status is removed on every path to the reply' % [ '0x%02x' % v for v in vals ] )
+        else:
+            res.bad( src, s, '%s: with status %s the pre-loaded extended status survives to the reply' % ( norm_text( s ), ', '.join( '0x%02x' % v for v in kept )),
+                     'status 0x06 (partial data) is a success too: keeping the pre-loaded extended status word makes every non-final fragment reply two octets longer, so an independent client reads type and data shifted' )
+    return res
